@@ -33,9 +33,19 @@ ASSUMPTIONS = ["the capability probe request is excluded by its header", "unique
 
 @st.composite
 def run_case(draw):
+    stop = draw(st.sampled_from([{"kind": "none"}, {"kind": "none"}, {"kind": "after_event", "k": draw(st.integers(3, 40))}, {"kind": "in_check", "k": draw(st.integers(1, 15))}, {"kind": "throw", "k": draw(st.integers(3, 40))}]))
+    if stop["kind"] == "in_check" and draw(st.booleans()):
+        # a stop that lands inside a long stateful scenario: at most one more request per worker may follow, not the rest of the scenario
+        api = draw(runs.api(max_ops=2, links=True))
+        api["link_target"] = "ok"
+        cfg = draw(runs.config(phases=["stateful"]))
+        cfg.update(stateful_step_count=draw(st.integers(5, 9)), max_failures=None, checks=["not_a_server_error"])
+        stop = {"kind": "in_check", "k": draw(st.integers(1, 4))}
+        for op in api["ops"]:
+            op["behaviour"] = "ok"
+        return {"api": api, "config": cfg, "stop": stop}
     api = draw(runs.api(max_ops=4))
     cfg = draw(runs.config())
-    stop = draw(st.sampled_from([{"kind": "none"}, {"kind": "none"}, {"kind": "after_event", "k": draw(st.integers(3, 40))}, {"kind": "in_check", "k": draw(st.integers(1, 15))}]))
     return {"api": api, "config": cfg, "stop": stop}
 
 
@@ -51,10 +61,15 @@ def check_run(ctx: Ctx, inp) -> None:
 
     api, cfg, stop = inp["api"], inp["config"], inp["stop"]
     server = loopback.shared(runs.make_script(api))
+    server.probe_reply = runs.probe_reply(api)
     record = engine_run.run_engine(runs.build_doc(api), cfg, server, stop=stop, max_wall_s=60)
     returned_at = time.monotonic()
     if record.exception:
         ctx.case(classes=["engine-exception"])
+        if stop["kind"] == "throw" and record.exception.startswith("KeyboardInterrupt"):
+            # the interrupt left the stream at a yield outside the phase's handler: a matter of the event protocol (C11, D25), no bound to judge here
+            ctx.inconclusive_case("a thrown KeyboardInterrupt left the stream (judged by C11)")
+            return
         ctx.disagree("engine:exception:" + record.exception.split(":")[0], f"engine run raised {record.exception}", input=inp)
         return
     events = record.events
